@@ -142,7 +142,29 @@ def call_builtin(ex, name, args, kw, st, where, env):
         if all(isinstance(a, int) for a in args):
             yield list(range(*args)), st
             return
-        raise PyvcUnsupported("range over symbolic bound needs a loop contract")
+        # symbolic range: a sequence of ints with explicit length and elements
+        lo = 0 if len(args) == 1 else args[0]
+        hi = args[0] if len(args) == 1 else args[1]
+        stepv = args[2] if len(args) > 2 else 1
+        if isinstance(stepv, Sym):
+            st_ok, raises = ex.guard(st, v_not(v_eq(stepv, 0)), "ValueError", where)
+            yield from raises
+            if st_ok is None:
+                return
+            st = st_ok
+            if not ex.entails(st, v_cmp(">", stepv, 0)):
+                raise PyvcUnsupported("range with a step not provably positive")
+        elif stepv <= 0:
+            raise PyvcUnsupported("range with non-positive step")
+        lo_e, hi_e, st_e = coerce(lo, IntT), coerce(hi, IntT), coerce(stepv, IntT)
+        r = z3.Const(fresh_name("range"), z3.SeqSort(z3.IntSort()))
+        i = z3.Int(fresh_name("ri"))
+        n = z3.If(hi_e <= lo_e, 0, (hi_e - lo_e + st_e - 1) / st_e)
+        yield Sym(SeqTy(IntT), r), st.assume(z3.Length(r) == n, z3.ForAll([i], z3.Implies(z3.And(i >= 0, i < n), r[i] == lo_e + i * st_e)))
+        return
+    if name in ("tqdm", "tqdm.tqdm"):
+        yield args[0], st
+        return
     if name == "enumerate":
         xs = elems_of(args[0])
         if xs is None:
@@ -678,6 +700,10 @@ def call_method(ex, recv, name, args, kw, st, where):
         raise PyvcUnsupported(f"method {name} on {recv!r}")
     t = recv.ty
     # ---- reporter (ghost log)
+    if isinstance(t, AbstractTy) and t.base == "Reporter" and name in ("flush", "close", "add_handler"):
+        # hands the step's reports to the handlers: no effect on the simulation state (handlers are outside the kernel)
+        yield None, st
+        return
     if isinstance(t, AbstractTy) and t.base == "Reporter" and name == "file_report":
         r = args[0]
         if not isinstance(r, Report):
